@@ -18,6 +18,10 @@ Definition immediate (cs : list scall) : list sev := flat_map immediate_one cs.
 (* FlushImmediately over Tee(s1, s2): s1.next(e).and(s2.next(e)) evaluates both; flush flushes both *)
 Definition tee_one (c : scall) : list sev := [ENext 0 (sc_id c); ENext 1 (sc_id c); EFlush 0; EFlush 1].
 Definition tee (cs : list scall) : list sev := flat_map tee_one cs.
+(* A background queue with room for every entry (no overflow), one producer: what its stream is handed — each entry
+   once, in append order, whatever the stream answered (the `next` calls only; when the queue flushes is a matter of
+   time).  The mechanism behind it is the transition system of Queue/Model.v. *)
+Definition background (cs : list scall) : list sev := map (fun c => ENext 0 (sc_id c)) cs.
 Definition tee_result (c : scall) : sres := match sc_r1 c with SOk => sc_r2 c | r => r end.
 
 Definition nexts_of (stream : nat) (evs : list sev) : list N :=
